@@ -1,7 +1,8 @@
 #!/bin/bash
 # Regression suite of the checker itself (runs in a scratch copy, /repo untouched): every hand-made
 # property-breaking edit and every seeded change must be reported by the quick tier of its property
-# with a replay that reproduces; every edit marked harmless must stay silent.
+# with a replay that reproduces; every edit marked harmless and every property-preserving refactor
+# under refactors/ must stay silent.
 # usage: tools/regress.sh [out.json]
 cd "$(dirname "$0")/.."
 OUT=${1:-/tmp/regress.json}
@@ -11,6 +12,10 @@ for d in seeded/*/; do
   id=$(basename "$d"); P=$(echo "$id" | sed -E 's/^c([0-9]+).*/C\1/')
   MUT_PROPS=$P tools/run_mutants.sh "$OUT.seeded.$id" "$d/patch.diff" >> "$OUT.seeded.log" 2>&1
 done
+MUT_PROPS="C12 C20" tools/run_mutants.sh "$OUT.refactors.r12" refactors/r12_refactor_*.diff > "$OUT.refactors.log" 2>&1
+MUT_PROPS="C14" tools/run_mutants.sh "$OUT.refactors.r14" refactors/r14_refactor_*.diff >> "$OUT.refactors.log" 2>&1
+MUT_PROPS="C15" tools/run_mutants.sh "$OUT.refactors.r15" refactors/r15_refactor_*.diff >> "$OUT.refactors.log" 2>&1
+MUT_PROPS="C20 C12" tools/run_mutants.sh "$OUT.refactors.r20" refactors/r20_refactor_*.diff >> "$OUT.refactors.log" 2>&1
 python3 - "$OUT" <<'PY'
 import json,sys,glob
 out=sys.argv[1]
@@ -28,6 +33,10 @@ for f in sorted(glob.glob(out+'.seeded.c*')):
     for r in json.load(open(f)):
         n+=1
         if not (r['exit']==1 and r['replay']=='reproduced=true'): print("MISSED seeded", r['mutant'], r['property'], r['exit']); bad+=1
+for f in sorted(glob.glob(out+'.refactors.r*')):
+    for r in json.load(open(f)):
+        n+=1
+        if r['exit']!=0: print("FALSE ALARM on a correct refactor", r['mutant'], r['property'], r['violation'][:160]); bad+=1
 print("regress: %d runs, %d problems"%(n,bad))
 sys.exit(1 if bad else 0)
 PY
